@@ -112,18 +112,59 @@ def r16_1(run, model, mir):
     # expression paths with >=2 segments: the import test in the EPath arm
     f = model.fn("resolve_expr", NR, impl="NameResolution")
     ok = False
+    n_tests = 0
     for iff in S.find(f.body, "If"):
-        txt = S.norm_ws(run.facts.text(NR, iff["cond"]["sp"]))
-        if "imports.contains(package)" in txt and txt.count("!") >= 1 and "current_package" in txt and reports_error(iff["then"]):
-            ok = "!ctx.imports.contains(package)" in txt
+        # the condition as a formula over four questions about `package` (boolean locals are read as what they abbreviate): it must
+        # reject a dependency that is neither the current package, nor Builtin, nor imported - and nothing that is imported
+        cond = S.expand_bool_locals(iff["cond"], f.body)
+        kinds = {}
+        for a_ in S.bool_atoms(cond):
+            t_ = S.norm_ws(run.facts.text(NR, a_["sp"])) if a_.get("sp") else ""
+            m_ = re.fullmatch(r"package(==|!=)(?:ctx\.|self\.)?current_package|(?:ctx\.|self\.)?current_package(==|!=)package", t_)
+            if m_:
+                kinds[id(a_)] = ("own", (m_.group(1) or m_.group(2)) == "==")
+            elif re.fullmatch(r'package(==|!=)"Builtin"', t_):
+                kinds[id(a_)] = ("builtin", "==" in t_)
+            elif re.fullmatch(r"(?:ctx\.|self\.)?deps\.contains_key\(package\)", t_):
+                kinds[id(a_)] = ("dep", True)
+            elif re.fullmatch(r"(?:ctx\.|self\.)?imports\.contains\(package\)", t_):
+                kinds[id(a_)] = ("imp", True)
+        if not any(v[0] == "imp" for v in kinds.values()) or not reports_error(iff["then"]):
+            continue
+        n_tests += 1
+
+        def val(env, other):
+            def atom(a_):
+                kv = kinds.get(id(a_))
+                if kv is None:
+                    return other
+                return env[kv[0]] if kv[1] else (not env[kv[0]])
+            return S.bool_eval(cond, atom)
+        essential = {"own": False, "builtin": False, "dep": True, "imp": False}
+        rejects = any(val(essential, o) for o in (True, False))
+        spares = True
+        for own in (True, False):
+            for bi in (True, False):
+                for dep in (True, False):
+                    if any(val({"own": own, "builtin": bi, "dep": dep, "imp": True}, o) for o in (True, False)):
+                        spares = False
+        if rejects and spares:
+            ok = True
     run.ob("R16.1", "resolve_expr|EPath multi-segment|import test", ok, site(NR, f.node["sp"]),
-           "multi-segment expression paths test `!ctx.imports.contains(package)` and report 'package not imported'" if ok else
-           "no import test for multi-segment expression paths")
+           "multi-segment expression paths: a dependency that is not imported is reported ('package not imported'), an imported one never" if ok else
+           f"no import test for multi-segment expression paths that rejects exactly the unimported dependencies ({n_tests} candidate tests)")
     pa = [x for x in model.fns(NR) if x.name == "package_allowed"]
     run.floor("package_allowed predicates", len(pa), 1)
     for x in pa:
         txt = S.norm_ws(run.facts.text(NR, x.body["sp"]))
         ok = "imports.contains(package)" in txt and "current_package" in txt and "||" in txt and "&&" not in txt and "true" not in txt
+        if not ok:
+            # a predicate that hands its question to another predicate of the same name (method -> free function) asks the same question
+            st_ = x.body["stmts"]
+            tail = st_[0]["expr"] if len(st_) == 1 and st_[0]["k"] == "ExprStmt" and not st_[0].get("semi") else None
+            if tail is not None and tail["k"] == "Call" and S.callee_name(tail) == "package_allowed" and len(pa) > 1 and \
+                    {"package", "current_package", "imports"} <= S.idents(tail) | {m_.get("member") for m_ in S.walk(tail) if m_["k"] == "Field"}:
+                ok = True
         run.ob("R16.1", f"{x.qual}|predicate", ok, site(NR, x.node["sp"]), f"package_allowed body: {txt[:120]}")
 
 
